@@ -95,6 +95,19 @@ def run(tier, seed):
         v = C.rename_scheme(u, DOTTED[:len(u["nodes"])]) if j % 5 == 1 else (C.rename_scheme(u, NUMERIC[:len(u["nodes"])]) if j % 5 == 3 else u)
         for cls in C.DAG_K + C.DAG_MIN:
             insts += variants(v, cls, rng, False, nx)
+    for u in dag_s:
+        if u["pweights"]:
+            # weight supersets whose spare (unusable) candidates follow the needed ones: layers stay empty after non-empty ones
+            spare = max(u["ew"]) + 1
+            for cls in ("kFlowDecomp", "kLeastAbsErrors", "kMinPathError"):
+                for sws in (list(u["pweights"]) + [spare, spare + 1], [spare] + list(u["pweights"]) + [spare + 2]):
+                    r = C.base(u, cls)
+                    r["wt"] = "int"
+                    r["k"] = len(sws)
+                    r["sws"] = sws
+                    if cls == "kFlowDecomp":
+                        r["opt"] = {"optimize_with_greedy": False}
+                    insts.append(r)
     for j, u in enumerate(cyc_s + cyc4_s):
         v = C.rename_scheme(u, DOTTED[:len(u["nodes"])]) if j % 5 == 1 else (C.rename_scheme(u, NUMERIC[:len(u["nodes"])]) if j % 5 == 3 else u)
         for cls in C.CYC_K + C.CYC_MIN:
